@@ -1,6 +1,49 @@
-From Coq Require Import List String.
-From Bq Require Import Expr ExprFacts.
+(* C06 -- Size mismatches are always detected; consistent sizes are never rejected.
+   [statusE] (theories/Compare.v) models SympyBackend.compare (expand the difference; 0 = equal, a non-zero integer
+   literal = unequal, else ambiguous) by a polynomial normal form; evalT is the standard rational reading.
+   Proved: the verdicts are SOUND for every pair of expressions and every assignment, the failure of a constraint
+   evaluation can only come from a 'violated' verdict, and integer literals are decided completely.
+   Exercised by the stream size-mismatch (partial): that the constraints preprocessing generates are the right
+   ones for every re-declared port (constant, repeated symbol, compound over parameters and locals), i.e. that
+   mismatch at the port <=> BartiqCompilationError, against the bottom-up denotation. *)
+From Coq Require Import List String QArith ZArith.
+From Bq Require Import Expr StdSem RepModel Routine Compare Compile CompareFacts.
 Import ListNotations.
-Theorem C06_placeholder : forall e, subst [] e = e.
-Proof. exact subst_nil. Qed.
-Print Assumptions C06_placeholder.
+Open Scope Q_scope.
+
+(* never reject a consistent routine: a failing constraint evaluation always goes back to a 'violated' verdict ... *)
+Theorem C06_failure_means_violated : forall env cs,
+  eval_constraints ev_subst statusE env cs = ECompile ->
+  exists c l r, In c cs /\ ev_subst env (c_lhs c) = Ok l /\ ev_subst env (c_rhs c) = Ok r /\ statusE l r = CViolated.
+Proof. exact constraint_failure_means_violated. Qed.
+Print Assumptions C06_failure_means_violated.
+
+(* ... and 'violated' is only said of two sizes that differ by the same non-zero integer under EVERY assignment
+   (so compilation itself fails only if the sizes differ for every assignment, and evaluation with an assignment
+   fails only if the sizes really differ under it) *)
+Theorem C06_violated_sound : forall l r,
+  statusE l r = CViolated -> exists z : Z, z <> 0%Z /\ forall rho, evalT rho l - evalT rho r == inject_Z z.
+Proof. exact statusE_violated_sound. Qed.
+Print Assumptions C06_violated_sound.
+
+Theorem C06_violated_never_equal : forall l r, statusE l r = CViolated -> forall rho, ~ evalT rho l == evalT rho r.
+Proof. exact violated_never_equal. Qed.
+Print Assumptions C06_violated_never_equal.
+
+(* a constraint is dropped as satisfied only if the two sizes agree under every assignment *)
+Theorem C06_satisfied_sound : forall l r, statusE l r = CSatisfied -> forall rho, evalT rho l == evalT rho r.
+Proof. exact statusE_satisfied_sound. Qed.
+Print Assumptions C06_satisfied_sound.
+
+(* detection: two integer sizes are always decided, equal or not *)
+Theorem C06_integers_decided : forall a b, statusE (EZ a) (EZ b) = if Z.eqb a b then CSatisfied else CViolated.
+Proof. exact statusE_integers. Qed.
+Print Assumptions C06_integers_decided.
+
+(* non-vacuity: a symbolic consistent pair, a symbolic contradiction, an undecided pair *)
+Example C06_nonvacuous :
+  let N := ESym "N" in
+  statusE (emul (EZ 2) (eadd N (EZ 1))) (eadd (emul N (EZ 2)) (EZ 2)) = CSatisfied /\
+  statusE (eadd N (EZ 1)) N = CViolated /\
+  statusE N (EZ 3) = CInconclusive.
+Proof. repeat split; vm_compute; reflexivity. Qed.
